@@ -1,6 +1,8 @@
 (* codecs/h264_packet.go: H264Payloader.Payload, H264Packet.Unmarshal (parseBody, doPackaging),
    IsPartitionHead.  Fixed tree: held SPS/PPS are copies; a FU-A start fragment resets the buffer; a held SPS/PPS
-   pair whose STAP-A exceeds the MTU is sent as two separate units instead of being dropped. *)
+   pair whose STAP-A exceeds the MTU is sent as two separate units instead of being dropped; held
+   parameter sets are never overwritten or overtaken (D25): they go out when another one of their kind,
+   a new SPS or any other unit arrives. *)
 From Coq Require Import ZArith List Lia Bool.
 From RTP Require Import Base.Bits Base.Res Base.ListX Base.Bytes Base.Own Model.AnnexB.
 Import ListNotations.
@@ -44,6 +46,29 @@ Definition emit_single_or_fua (mtu : Z) (nalu : list Z) : res (list bref) :=
 Definition packetize_nalu (mtu : Z) (nalu : list Z) : res (list bref) :=
   match nalu with [] => Panic | _ => emit_single_or_fua mtu nalu end.
 
+(* flushParameterSets: what is held back goes out, in the order it was given - an SPS and a PPS as
+   one STAP-A (on their own if that exceeds the MTU), a parameter set without its counterpart on
+   its own *)
+Definition flush_params (mtu : Z) (st : h264pay) : res (h264pay * list bref) :=
+  let cleared := mkH264Pay (hp_disable_stapa st) None None in
+  let individually :=
+    match (match hp_sps st with Some s => packetize_nalu mtu s | None => Ok [] end) with
+    | Ok f1 =>
+      match (match hp_pps st with Some p => packetize_nalu mtu p | None => Ok [] end) with
+      | Ok f2 => Ok (cleared, f1 ++ f2)
+      | Err e => Err e
+      | Panic => Panic
+      end
+    | Err e => Err e
+    | Panic => Panic
+    end in
+  match hp_sps st, hp_pps st with
+  | Some sps, Some pps =>
+    let stap := 120 :: put16 (u16 (zlen sps)) ++ sps ++ put16 (u16 (zlen pps)) ++ pps in
+    if zlen stap <=? mtu then Ok (cleared, [Own stap]) else individually
+  | _, _ => individually
+  end.
+
 (* the callback of emitNalus *)
 Definition h264_nalu (mtu : Z) (st : h264pay) (nalu : list Z) : res (h264pay * list bref) :=
   match nalu with
@@ -58,28 +83,35 @@ Definition h264_nalu (mtu : Z) (st : h264pay) (nalu : list Z) : res (h264pay * l
       end in
     if (ty =? 9) || (ty =? 12) then Ok (st, [])
     else if ty =? 7 then
-      if negb (hp_disable_stapa st) then Ok (mkH264Pay false (Some nalu) (hp_pps st), []) else single st []
+      if negb (hp_disable_stapa st) then
+        (* an SPS opens a new pair: whatever is still held goes out first *)
+        match flush_params mtu st with
+        | Ok (st1, fs) => Ok (mkH264Pay (hp_disable_stapa st1) (Some nalu) (hp_pps st1), fs)
+        | Err e => Err e
+        | Panic => Panic
+        end
+      else single st []
     else if ty =? 8 then
-      if negb (hp_disable_stapa st) then Ok (mkH264Pay false (hp_sps st) (Some nalu), []) else single st []
-    else
-      match negb (hp_disable_stapa st), hp_sps st, hp_pps st with
-      | true, Some sps, Some pps =>
-        let stap := 120 :: put16 (u16 (zlen sps)) ++ sps ++ put16 (u16 (zlen pps)) ++ pps in
-        if zlen stap <=? mtu then single (mkH264Pay false None None) [Own stap]
-        else
-          (* the pair does not fit one STAP-A: each parameter set goes out on its own *)
-          match packetize_nalu mtu sps with
-          | Ok f1 =>
-            match packetize_nalu mtu pps with
-            | Ok f2 => single (mkH264Pay false None None) (f1 ++ f2)
-            | Err e => Err e
-            | Panic => Panic
-            end
+      if negb (hp_disable_stapa st) then
+        match hp_pps st with
+        | Some _ =>
+          (* a PPS is already held: it goes out (with its SPS) before this one takes its place *)
+          match flush_params mtu st with
+          | Ok (st1, fs) => Ok (mkH264Pay (hp_disable_stapa st1) (hp_sps st1) (Some nalu), fs)
           | Err e => Err e
           | Panic => Panic
           end
-      | _, _, _ => single st []
-      end
+        | None => Ok (mkH264Pay (hp_disable_stapa st) (hp_sps st) (Some nalu), [])
+        end
+      else single st []
+    else
+      if negb (hp_disable_stapa st) then
+        match flush_params mtu st with
+        | Ok (st1, pre) => single st1 pre
+        | Err e => Err e
+        | Panic => Panic
+        end
+      else single st []
   end.
 
 Fixpoint h264_nalus (mtu : Z) (st : h264pay) (nalus : list (list Z)) : res (h264pay * list bref) :=
